@@ -216,7 +216,26 @@ class StateWorld(Run):
         op = {"op": "new", "slot": self._free_slot(rng), "ctor": c, "entropy": new_entropy(rng)}
         if c == "stab":
             cnt = rng.randrange(1, n + 1)
-            op["gens"] = sut.strs(rm.rand_commuting_independent(rng, n, cnt))
+            gens = rm.rand_commuting_independent(rng, n, cnt)
+            op["gens"] = sut.strs(gens)
+            u = rng.random()
+            if u < 0.25:
+                op["form"] = "strings"      # stabilizer_state("-XZ", "ZX"): parsed by paulis(...)
+            elif u < 0.40:
+                # a redundant list (a duplicate, the product of two entries with its correct sign,
+                # or the identity): a rejected operation - raising is fine, a returned state must be valid
+                how = rng.choice(["dup", "prod", "ident"]) if cnt >= 2 else rng.choice(["dup", "ident"])
+                if how == "dup":
+                    extra = gens[rng.randrange(cnt)]
+                elif how == "prod":
+                    i, j = rng.sample(range(cnt), 2)
+                    extra = rm.pmul(gens[i], gens[j])
+                else:
+                    extra = (tuple([0] * n), 0)
+                gens = list(gens)
+                gens.insert(rng.randrange(len(gens) + 1), extra)
+                op["gens"] = sut.strs(gens)
+                op["redundant"] = how
         elif c in ("rcs", "rps"):
             op["r"] = rng.choice([None, 0] + list(range(n + 1)))
         elif c == "tostate":
@@ -866,7 +885,20 @@ class StateWorld(Run):
                 gens = sut.parse_list(op["gens"])
                 if any(len(g[0]) != n for g in gens):
                     raise Skip()
-                st = pc.stabilizer_state(sut.mk_list(gens))
+                if op.get("redundant"):
+                    if not all(rm.hermitian(g) for g in gens):
+                        raise Skip()
+                    self.stats["rejected_op"] += 1
+                    try:
+                        st = pc.stabilizer_state(sut.mk_list(gens))
+                        self.probes["redundant_generators_accepted"] += 1
+                    except Exception:
+                        return "rejected"
+                elif op.get("form") == "strings":
+                    st = pc.stabilizer_state(*[rm.pstr(g) for g in gens])
+                    self.stats["config:state_from_strings"] += 1
+                else:
+                    st = pc.stabilizer_state(sut.mk_list(gens))
             elif c == "stab_state":
                 if op["src"] not in self.slots:
                     raise Skip()
